@@ -505,6 +505,29 @@ def park_wake(ctx):
                 out.append(ok('PARK-wake', key, 'calls %s on every path that found the queue in %s' % (what, st), fn=fname))
             else:
                 out.append(bad('PARK-wake', key, 'a path that finds the queue parked in %s returns without calling %s: the wake-up is dropped and nobody resumes the queue' % (st, what), fn=fname))
+    # latch: a wake that arrives while the job is still being polled (state Running) is remembered ...
+    for fname, nice in ((WAKE_QUEUE, 'WakeQueue'), (WAKE_THREAD, 'WakeThread')):
+        tr = {(s, s2) for (f, s, s2, role) in transitions(ctx) if f == fname}
+        key = '%s|latch-while-running' % nice
+        if not tr:
+            continue
+        if ('Running', 'AwokenWhileRunning') in tr:
+            out.append(ok('PARK-wake', key, 'a wake during the poll is recorded as AwokenWhileRunning', fn=fname))
+        else:
+            out.append(bad('PARK-wake', key, 'a wake that arrives while the job is being polled (queue Running) leaves no trace: the runner then parks the queue and nothing wakes it again', fn=fname))
+    # ... and every runner that parks on Poll::Pending consumes the latch instead of parking
+    parkers = {'desync::scheduler::job_queue::JobQueue::drain': 'WaitingForWake', 'desync::scheduler::job_queue::JobQueue::run_one_job_now': 'WaitingForUnpark'}
+    for fname, parked in parkers.items():
+        tr = {(s, s2) for (f, s, s2, role) in transitions(ctx) if f == fname}
+        key = '%s|consumes-latch' % short(fname)
+        if not tr:
+            out.append(undecided('PARK-wake', key, 'runner not found'))
+        elif ('AwokenWhileRunning', parked) in tr:
+            out.append(bad('PARK-wake', key, 'the runner parks the queue (%s) although a wake was recorded while it was polling: that wake-up is lost' % parked, fn=fname))
+        elif ('AwokenWhileRunning', 'Running') in tr and ('Running', parked) in tr:
+            out.append(ok('PARK-wake', key, 'AwokenWhileRunning -> Running (poll again), Running -> %s (park)' % parked, fn=fname))
+        else:
+            out.append(bad('PARK-wake', key, 'the runner no longer parks on Running / re-polls on AwokenWhileRunning (transitions: %s)' % sorted(tr), fn=fname))
     # reschedule_queue offers a WaitingForPoll queue to the pool, and the pool accepts it
     if any(r == 'TOK-pending' and f.endswith('reschedule_queue') for (r, f, m, l) in P.viol):
         out.append(bad('PARK-wake', 'reschedule_queue|WaitingForPoll', 'a queue parked for a polling task is not put on the schedule when it is woken', fn=RESCHED))
